@@ -43,7 +43,8 @@ THEOREMS = ['C06_indices_first_fastest', 'C06_items_array',
             'C06_parse_lattice_option', 'C06_getitem_tuple_last_fastest',
             'C06_parse_fill_kw_array', 'C06_parse_fill_kw_short_and_shapes',
             'C06_array_entry_transformation_refuted',
-            'C06_lattice_end_to_end', 'C06_lattice_end_to_end_3d']
+            'C06_lattice_end_to_end', 'C06_lattice_end_to_end_3d',
+            'C06_lattice_end_to_end_1d_2d']
 TRUSTED = [
     'hand-written model coq/C06/Model.v (modelled, tied by execution only)',
     'cells, surfaces other than planes and the effect of a transformation on a '
